@@ -16,6 +16,7 @@ package main
 // 1 = symbol size + w, 2 = symbol size * w).  The driver decides nothing - TLC (Trace_Totality) judges every event.
 
 import (
+	"math"
 	"bufio"
 	"encoding/json"
 	"fmt"
@@ -261,6 +262,16 @@ func resolve(kind, v, sym int) int {
 		return sym + v
 	case 2:
 		return sym * v
+	case 3: // the top of the int range: MaxInt64 - v
+		return math.MaxInt64 - v
+	}
+	return v
+}
+
+// clamp keeps a requested size inside TLC's 32-bit integers when it is reported back (2^30 stands for "2^30 or more")
+func clamp(v int) int {
+	if v > 1<<30 {
+		return 1 << 30
 	}
 	return v
 }
@@ -296,7 +307,8 @@ func observe(e *ev, bound time.Duration) error {
 	}
 	e.W, e.H = resolve(e.Wk, e.W0, e.Sw), resolve(e.Hk, e.H0, e.Sh)
 	o := call(writerFor(e.Wr), c, gozxing.BarcodeFormat(e.Fmt), e.W, e.H, hm, bound)
-	e.Mat, e.Err, e.Panic, e.Hang, e.Ow, e.Oh, e.Ms, e.Msg = o.mat, o.err, o.panicked, o.hang, o.w, o.h, o.ms, o.msg
+	e.Mat, e.Err, e.Panic, e.Hang, e.Ow, e.Oh, e.Ms, e.Msg = o.mat, o.err, o.panicked, o.hang, clamp(o.w), clamp(o.h), o.ms, o.msg
+	e.W, e.H = clamp(e.W), clamp(e.H)
 	return nil
 }
 
